@@ -131,6 +131,23 @@ func runC12(c *Check) {
 			// most recent: the error must not come only from a call that is followed by another call on the way here
 		}
 	}
+	// path-sensitive: what is returned belongs to the LAST attempt made on that path
+	for i, f := range ReturnFacts(I, m.HCalls) {
+		k := fmt.Sprintf("path-class#%d to return at %s", i, c.P.Pos(f.Ret.Pos()))
+		if f.Last == nil {
+			c.Report(false, P+".O1", "RESULT-OF-LAST-ATTEMPT", I, f.Ret.Pos(), k, "a return is reachable without any attempt")
+			continue
+		}
+		errV, outV := f.Vals[1], f.Vals[0]
+		okErr := IsNilConst(errV) || IsResultOf(errV, f.Last, 1)
+		okOut := IsNilConst(outV) || IsResultOf(outV, f.Last, 0)
+		if IsNilConst(errV) {
+			okOut = IsResultOf(outV, f.Last, 0)
+		}
+		c.Report(okErr && okOut, P+".O1", "RESULT-OF-LAST-ATTEMPT", I, f.Ret.Pos(), k,
+			"on this class of paths the returned error (and messages) are the results of the most recent handler call, not of an earlier attempt",
+			fmt.Sprintf("last attempt at %s; returned messages=%s error=%s", c.P.Pos(f.Last.Pos()), outV.Name(), errV.Name()))
+	}
 	// O2 stop on success
 	for i, hc := range m.HCalls {
 		eq, _ := NilEdges(I, ResultOfAny([]ssa.CallInstruction{hc}, 1))
